@@ -129,10 +129,29 @@ type FnCtx struct {
 	ptrReads    []ptrRead
 	globalReads []*Cell
 	globalSeen  map[*Cell]bool
+	globalTyped map[*Cell]bool
 	curPos      token.Pos
 	entryMeasure *Term
 	retCovers    []*Obligation
 	curBinOp     *ssa.BinOp
+	blockStack   []blockRef
+	freshBase    *Term
+	loopAssume   []loopAssumption
+}
+
+type blockRef struct {
+	fr *Frame
+	b  *ssa.BasicBlock
+}
+
+// loopAssumption: the havoc at loop head `head` assumed that stores to `heap` inside the loop only hit objects
+// allocated after loop entry (id >= wm) or the listed loop-invariant objects; checked at every store in the body.
+type loopAssumption struct {
+	fr     *Frame
+	head   *ssa.BasicBlock
+	heap   string
+	wm     *Term
+	except []*Term
 }
 
 type writeLog struct {
@@ -237,6 +256,14 @@ func (c *FnCtx) getCell(st *State, cell *Cell) *Term {
 			c.globalSeen[cell] = true
 			c.globalReads = append(c.globalReads, cell)
 		}
+		if cell.init != nil && !c.globalTyped[cell] {
+			if c.globalTyped == nil {
+				c.globalTyped = map[*Cell]bool{}
+			}
+			c.globalTyped[cell] = true
+			// representation invariants of the variable's entry value (pointers/functions are allocated objects, ...)
+			c.typeFacts(&State{pc: c.eng.ts.Bool(true), wm: c.eng.ts.Named("wm!entry", SInt)}, cell.init, cell.typ)
+		}
 	}
 	if v, ok := st.cells[cell]; ok {
 		return v
@@ -263,6 +290,28 @@ func (c *FnCtx) heap(st *State, name string, sort Sort) *Term {
 }
 
 func (c *FnCtx) setHeapAt(st *State, name string, sort Sort, obj, v *Term) {
+	if c.noObl == 0 {
+		ts := c.eng.ts
+		for _, la := range c.loopAssume {
+			if la.heap != name {
+				continue
+			}
+			inside := false
+			for _, br := range c.blockStack {
+				if br.fr == la.fr && la.fr.loops.body[la.head][br.b] {
+					inside = true
+				}
+			}
+			if !inside {
+				continue
+			}
+			alts := []*Term{ts.Ge(obj, la.wm), ts.Eq(obj, ts.Int(0))}
+			for _, e := range la.except {
+				alts = append(alts, ts.Eq(obj, e))
+			}
+			c.addObl(st, "loop-frame", fmt.Sprintf("#%d %s", c.kindOrd["loop-frame"], name), ts.Or(alts...), token.NoPos, "store to "+name+" inside a loop must hit an object allocated during the loop or a loop-invariant object")
+		}
+	}
 	h := c.heap(st, name, sort)
 	st.heaps[name] = c.eng.ts.Store(h, obj, v)
 	if c.writeLog != nil {
